@@ -81,3 +81,24 @@ Lemma single_back_chain : single_back_calls =
    ("components", "inverse_transform_components"); ("scores", "inverse_transform_scores")] /\
   single_model_fit_transform_passes_data_dim_weights_to_fit = true.
 Proof. split; reflexivity. Qed.
+
+(* ---- every method of every model class that carries a result back to the user's structure takes the inverse path its name stands
+   for: results for NEW data (transform, predict) the path of new data, fitted scores the fit path, patterns the component path,
+   reconstructions the data path (Gen/T7chain.v: accessor_back_table) ---- *)
+Fixpoint has_sub (sub s : string) : bool :=
+  match s with EmptyString => prefix sub s | String _ r => prefix sub s || has_sub sub r end.
+Definition expected_back (cls m : string) : string :=
+  if String.eqb m "transform" || String.eqb m "predict" then "inverse_transform_scores_unseen"
+  else if String.eqb m "inverse_transform" then "inverse_transform_data"
+  else if String.eqb cls "GWPCA" then "inverse_transform_scores"        (* local statistics along the sample axis; outside the properties *)
+  else if has_sub "components" m || has_sub "patterns" m then "inverse_transform_components"
+  else if has_sub "scores" m then "inverse_transform_scores"
+  else "?".
+Definition accessor_row_ok (r : string * string * string * string) : bool :=
+  let '(cls, m, _, back) := r in String.eqb back (expected_back cls m).
+Lemma accessor_back_paths : forallb accessor_row_ok accessor_back_table = true /\ List.length accessor_back_table = 39.
+Proof. split; vm_compute; reflexivity. Qed.
+
+(* the seeded variant: a fitted-scores accessor sent through the path of new data *)
+Example accessor_unseen_refuted : accessor_row_ok ("ComplexEOF", "scores_phase", "preprocessor", "inverse_transform_scores_unseen") = false.
+Proof. vm_compute. reflexivity. Qed.
